@@ -35,6 +35,13 @@ class _Obj(object):
     pass
 
 
+class _EmptyService(object):
+    """A registered instance whose truth value is False (a container-like service that holds nothing yet)."""
+
+    def __len__(self):
+        return 0
+
+
 class _Base(object):
     """A class with a serialisation handler registered in the server's Config."""
 
@@ -56,6 +63,13 @@ class _BadDump(object):
 
     def _serialize(self):
         raise ValueError("cannot be serialised")
+
+
+class _BadDumpLookup(object):
+    """Same, failing with an exception that is neither a TypeError nor a ValueError."""
+
+    def _serialize(self):
+        raise LookupError("no serialiser registered for this object")
 
 
 def _base_handler(obj, serialize_method, ignore_attribute, ignore, config):
@@ -198,6 +212,12 @@ class SysRun(object):
                     return _Sub()
                 if kind == "baddump":
                     return _BadDump()
+                if kind == "baddump-lookup":
+                    return _BadDumpLookup()
+                if kind == "selfref":
+                    loop = ["a list that contains itself"]
+                    loop.append(loop)
+                    return loop
                 if kind == "subrejected":
                     return _SubRejected()
                 if kind == "fault":
@@ -276,8 +296,8 @@ class SysRun(object):
                 continue
             f = self.make_method(name, spec)
             self.direct_table[name] = f
-            if self.p["server"].get("custom_dispatch") == "instance":
-                continue
+            if self.p["server"].get("custom_dispatch") in ("instance", "direct"):
+                continue  # known to the custom dispatch function only: the default resolver would not find them
             disp.register_function(f, name)
         if self.p["server"].get("custom_dispatch") == "instance":
             run = self
@@ -290,7 +310,7 @@ class SysRun(object):
             return
         inst = self.p.get("instance")
         if inst:
-            root = _Obj()
+            root = _EmptyService() if self.p.get("instance_falsy") else _Obj()
             for dotted in sorted(inst):
                 parts = dotted.split(".")
                 cur = root
